@@ -44,7 +44,10 @@ def _members(t, spec, n=3):
         out = list(p["categories"])
     else:
         vals = list(spec.domain.values)
-        out = [vals[0], vals[-1]] + [vals[t.index(len(vals))] for _ in range(n)]
+        if len(vals) <= 40:
+            out = list(dict.fromkeys(vals))  # small finite ranges: every value
+        else:
+            out = [vals[0], vals[-1]] + [vals[t.index(len(vals))] for _ in range(n)]
     return out
 
 
